@@ -36,11 +36,17 @@ impl Report {
     pub fn sample(&mut self, s: String) {
         if self.samples.len() < 4 { self.samples.push(s); }
     }
-    /// keep at most 3 failures per obligation (the first ones found: smallest inputs first by construction)
+    /// keep at most 3 failures per obligation and "signature" (the detail text with digits removed, first 48 chars after
+    /// an optional "[.. in total ..]" prefix), so that a known failure family cannot crowd a new one out; at most 60 overall
     pub fn fail(&mut self, obligation: &str, detail: String, input: Value, observed: String) {
-        let n = self.failures.iter().filter(|f| f.obligation == obligation).count();
+        let sig = |d: &str| -> String {
+            let d = match d.find("] ") { Some(p) if d.starts_with('[') => &d[p + 2..], _ => d };
+            d.chars().filter(|c| !c.is_ascii_digit()).take(48).collect()
+        };
+        let key = sig(&detail);
+        let n = self.failures.iter().filter(|f| f.obligation == obligation && sig(&f.detail) == key).count();
         self.seen_obl.insert(obligation.to_string());
-        if n < 3 {
+        if n < 3 && self.failures.len() < 60 {
             self.failures.push(Failure { obligation: obligation.to_string(), detail, input, observed });
         }
     }
